@@ -152,7 +152,7 @@ def _env_var(I, ci, key):
     if k not in d:
         present = w.fresh_int('env%d_has_%s' % (ENV[0], name), 0, 1)
         c = z3.Int('env%d_val_%s' % (ENV[0], name))
-        w.assume(C.domain(c))
+        w.assume(z3.And(C.domain(c), c >= 33, c <= 126))        # a value that can be set in a real process environment
         d[k] = (present, c)
     present, c = d[k]
     w.notes.append('environment variable %s read' % name)
@@ -181,3 +181,37 @@ def _hash_one(I, ci, bh, v):
     h = _build_hasher(I, ci, bh)
     REG['<Hash>::hash'](I, ci, v, ValPtr(h))
     return REG['<Hasher>::finish'](I, ci, ValPtr(h))
+
+
+# ------------------------------------------------------------------ iteration order of std hash containers
+CUR = [None]       # the interpreter of the running two-environment harness (set by harness/c14.two_envs)
+
+
+def _hash_order(m):
+    """std HashMap / HashSet iterate in an order that depends on the per-process keys: any permutation, private to the
+    epoch (forks over the permutations; more than 4 entries are not enumerated)"""
+    if ENV[0] == 0 or CUR[0] is None:
+        return None
+    I = CUR[0]
+    w = I.world
+    n = len(m.entries)
+    if n > 4:
+        raise Unsupported('iteration over a std hash container with %d entries under the two-environment harness' % n)
+    cnt = w.__dict__.setdefault('_ho_count', [0])
+    cnt[0] += 1
+    ps = [w.fresh_int('hashorder_%d_%d_%d' % (ENV[0], cnt[0], j), 0, n - 1) for j in range(n)]
+    w.assume(z3.Distinct(*ps))
+    w.notes.append('iteration over a std hash container: order treated as environment-dependent')
+    perm = []
+    for j in range(n):
+        for i in range(n):
+            if i not in perm and w.branch(ps[j] == i):
+                perm.append(i)
+                break
+        else:
+            raise Infeasible()
+    return perm
+
+
+import models_iter as _MI
+_MI.ORDER_HOOK[0] = _hash_order
